@@ -24,7 +24,7 @@ ASSUMPTIONS = [
     "collections.deque append/appendleft/popleft have their documented end-of-queue semantics",
     "StreamWriter.write buffers bytes in call order",
 ]
-FLOORS = {"C01.R1": 7, "C01.R2": 5, "C01.R3": 4, "C01.R4": 4, "C01.R5": 2, "C01.R6": 2, "C01.R7": 1, "C01.R8": 1, "C01.R9": 1}
+FLOORS = {"C01.R1": 7, "C01.R2": 5, "C01.R3": 4, "C01.R4": 4, "C01.R5": 2, "C01.R6": 2, "C01.R7": 1, "C01.R8": 1, "C01.R9": 1, "C01.R10": 1}
 
 QUEUE_READ_OK = {"len", "bool", "reversed", "list", "tuple", "iter", "enumerate"}
 MUTATORS = {"append", "appendleft", "pop", "popleft", "insert", "extend", "extendleft", "clear", "rotate", "remove", "reverse", "sort", "__setitem__", "__delitem__"}
@@ -48,6 +48,14 @@ def run(ctx):
     from . import c02
 
     reuse(ctx, "C01.R9", [c02.r2], "a message lives exactly as long as its own policy says: expiry = acceptance time + retry_policy.max_lifetime, copied unchanged, tested strictly before the write (C02.R2)")
+    from . import c16
+
+    def _c16_queue(c):
+        enq = sock_fn(c, "_enqueue_message")
+        c16.r1(c, enq, c16.r2(c, enq))
+
+    reuse(ctx, "C01.R10", [_c16_queue], "a held message leaves the queue only by being written, by its own expiry or by the explicit overflow error at acceptance: the purge deletes exactly the expired entries and the container discards nothing on its own (C16.R1/R2)",
+          keep=lambda o: "purge" in o.construct or "unbounded" in o.construct or o.verdict != "HOLDS")
     reuse(ctx, "C01.R7", [c07.r9], "while is_connected is True a writer is stored whenever another task can run, so the drain never pops a message for which _write finds no stream (C07.R9)",
           keep=lambda o: o.construct.startswith("coherence:connected-implies-writer") or o.construct.startswith("coherence:__init__"))
 
